@@ -15,6 +15,18 @@ sys.path.insert(0, os.path.dirname(os.path.dirname(os.path.abspath(__file__))))
 from vlib import cstr, cz, cbool, clist  # noqa: E402
 from translate import options as topt  # noqa: E402
 
+CLAIM = {
+    "text": "Unbounded theorems (any layers, any keys) about an executable Coq model of init_options: precedence, "
+            "iter expansion, every coupling, unknown-key pass-through; documented defaults = code defaults decided "
+            "by computation on tables regenerated from the source on every run. The model is tied to the code by "
+            "an exhaustive correspondence over all presence patterns evaluated inside Coq.",
+    "note": "All eight theorems are closed under the global context (no axioms). Python truthiness of option values "
+            "other than bool/int/str/None is modelled as true (the generator never feeds falsy ones into inspected keys).",
+    "technique": "Coq proof over hand-written model + exhaustive model/implementation correspondence + generated tables",
+    "design": "DESIGN.md 4/C14",
+}
+GEN = [("OptDefaults", lambda: topt.generate()[0])]
+
 STAGE = ["max_iter_hyd", "max_iter_therm", "max_iter_bidirect"]
 
 
